@@ -43,8 +43,12 @@ def range_number_from_counter(e, label, counter):
     number = counter.get(key, None)
 
     if number is None:
-        number = 1 + sum(1 for o in counter.keys() if o[0] == label)
-        assert number is not None
+        # use the lowest number that is not used by a range that is still open
+        # (counting the open ranges may hand out a number that is still in use)
+        used = set(n for o, n in counter.items() if o[0] == label)
+        number = 1
+        while number in used:
+            number += 1
         counter[key] = number
 
     else:
